@@ -899,3 +899,35 @@ func FnAtomsWithoutValue(body []LitV) []int {
 	}
 	return bad
 }
+
+// AddIDBFacts gives some rule-defined predicates unit clauses of their own (a predicate defined by facts and by rules
+// at once), inserted at random places of the rule list, the very end included: the classification of such a
+// predicate and of its clauses must not depend on where the unit clauses stand.
+func AddIDBFacts(r *rand.Rand, p *ProgramV) {
+	agg := map[string]bool{}
+	for _, c := range p.Rules {
+		for _, st := range c.Transforms {
+			if len(st) > 0 && st[0].Var == "" {
+				agg[c.Head.Pred] = true
+			}
+		}
+	}
+	for _, ps := range p.Preds {
+		if !ps.IDB || agg[ps.Name] || r.Intn(2) == 0 {
+			continue
+		}
+		n := 1 + r.Intn(2)
+		for k := 0; k < n; k++ {
+			h := LitV{K: "atom", Pred: ps.Name}
+			for _, s := range ps.Sorts {
+				d := sortDomain[s]
+				h.Args = append(h.Args, ConstT(d[r.Intn(len(d))]))
+			}
+			at := r.Intn(len(p.Rules) + 1)
+			if r.Intn(3) == 0 {
+				at = len(p.Rules)
+			}
+			p.Rules = append(p.Rules[:at:at], append([]ClauseV{{Head: h}}, p.Rules[at:]...)...)
+		}
+	}
+}
